@@ -1,4 +1,4 @@
-"""R-BOOL-SHORTCUT (C10): the two short-circuit decisions of the switch evaluator agree.
+"""R-BOOL-SHORTCUT (C10): the two short-circuit decisions of the switch evaluator agree, and match the operators' meaning.
 
 `evaluate_boolean` (keyberon/src/action/switch.rs) decides in two places whether the rest of an `and` / `or` / `not`
 group can be skipped: after a *leaf* operand was evaluated, and after a *nested group* ended and its parent was popped
@@ -8,13 +8,18 @@ from the operator stack. Both implement the same function of (operator of the gr
     not + true  -> group is false, skip the rest          anything else -> go on with the next operand
 
 They are written differently (one negates for `not` before its test, the other after), so a one-sided edit - dropping
-`Not` from one `matches!` - leaves each looking plausible while `(not (or a b) c)` is no longer decided by `(or a b)`.
+`Not` from one `matches!`, or moving both tests into one helper without accounting for the negation order - leaves each
+looking plausible while `(not (or a b) c)` is no longer decided by `(or a b)`.
 
-Rule: abstract evaluation of the MIR of both sites over the finite domain {or, and, not} x {true, false}: booleans,
-the operator enum, tuples of them, `!`, `==` on the operator, and `matches!` switches are interpreted; every other
-branch is followed both ways. For each of the six inputs the sites must agree on (a) whether skipping is *forced* (every
-path skips) and (b) the value of the group when it is."""
-from kq.core import Resolver, callee_written, is_const, is_place, proj
+Rule: abstract evaluation of the MIR over the finite domain {or, and, not} x {true, false}. Booleans, the operator
+enum, tuples of them, `!`, `==` / `!=` on the operator, `matches!` switches and calls of keyberon helper functions whose
+arguments are known (evaluated the same way, to the set of values they can return) are interpreted; every other
+branch is followed both ways. A *site* is a statement `current_index = current_end_index` (the skip); its entry is the
+earliest point from which every path to it is interpretable, i.e. lies after the last opaque definition of `ret` /
+`current_op` (the popped operator, the leaf's value). For each of the six inputs the two sites must agree on (a)
+whether skipping is *forced* (every path skips) and (b) the value of the group when it is; and both must match the
+truth table above."""
+from kq.core import callee_name, callee_written, is_const, is_place, norm_name, proj
 from kq.analysis import _promoted_variant
 from kq.report import RuleResult
 
@@ -29,20 +34,19 @@ def _tupidx(p):
     return None
 
 
-class Site:
-    def __init__(self, prog, f, names):
-        self.prog, self.f = prog, f
-        self.ret, self.op, self.idx, self.end = names
+class Abs:
+    def __init__(self, prog):
+        self.prog = prog
         self.variants = prog.enum_variants(OP)          # discr -> name
         self.discr = {v: k for k, v in self.variants.items()}
-        self.R = Resolver(f)
+        self.depth = 0
 
-    def val(self, env, o):
+    def val(self, f, env, o):
         if is_const(o):
             c = o["c"]
             if c.get("ty") == "bool" and c.get("v") in (0, 1):
                 return ("b", c["v"])
-            pv = _promoted_variant(self.f, o, OP)
+            pv = _promoted_variant(f, o, OP)
             return ("e", pv) if pv else None
         if not is_place(o):
             return None
@@ -54,115 +58,160 @@ class Site:
             return env.get((o["l"], ti))
         return None
 
-    def deref_val(self, env, o):
-        """value behind a `&x` temporary"""
+    def deref_val(self, f, env, o):
+        """value behind a `&x` temporary (or the value itself)"""
         if is_place(o) and not proj(o):
-            d = self.f.single_def(o["l"])
+            if o["l"] in env:
+                return env[o["l"]]
+            d = f.single_def(o["l"])
             if d and d[2] == "assign" and d[3]["k"] == "ref":
                 p = d[3]["p"]
                 if not proj(p):
                     return env.get(p["l"])
                 if proj(p) == ["*"]:
-                    d2 = self.f.single_def(p["l"])
+                    d2 = f.single_def(p["l"])
                     if d2 and d2[2] == "assign" and d2[3]["k"] == "use":
-                        return self.val(env, d2[3]["a"])
+                        return self.val(f, env, d2[3]["a"])
+                    return env.get(p["l"])
+        if is_const(o):
+            return self.val(f, env, o)
         return None
 
-    def run(self, entry, v, r, limit=400, first_stmt=0):
-        """outcomes {(kind, ret value)}: kind 'skip' = current_index set to current_end_index, 'next' = anything else"""
-        f = self.f
-        out = set()
-        seen = set()
-        st0 = frozenset({self.ret: ("b", r), self.op: ("e", v)}.items())
-        st = [(entry, st0)]
+    def assign(self, f, env, s):
+        p, rv = s["p"], s["rv"]
+        if proj(p):
+            return
+        l = p["l"]
+        new = {}
+        if rv["k"] == "use":
+            x = self.val(f, env, rv["a"])
+            if x is not None:
+                new[l] = x
+            elif is_place(rv["a"]) and not proj(rv["a"]):
+                for k in [k for k in env if isinstance(k, tuple) and k[0] == rv["a"]["l"]]:
+                    new[(l, k[1])] = env[k]          # a tuple moved as a whole
+        elif rv["k"] == "un" and rv.get("op") == "Not":
+            x = self.val(f, env, rv["a"])
+            if x is not None and x[0] == "b":
+                new[l] = ("b", 1 - x[1])
+        elif rv["k"] == "agg" and rv.get("tup"):
+            for i, o in enumerate(rv["ops"]):
+                x = self.val(f, env, o)
+                if x is not None:
+                    new[(l, i)] = x
+        elif rv["k"] == "agg" and rv.get("adt") == OP:
+            new[l] = ("e", rv.get("v"))
+        elif rv["k"] == "discr":
+            x = self.val(f, env, rv["p"])
+            if x is not None and x[0] == "e":
+                new[l] = ("d", self.discr[x[1]])
+        for k in [k for k in env if k == l or (isinstance(k, tuple) and k[0] == l)]:
+            del env[k]
+        env.update(new)
+
+    def call(self, f, env, t):
+        """abstract result of a call: a value, or None when it is not interpretable"""
+        cn = callee_written(t) or ""
+        if cn in ("core::cmp::PartialEq::eq", "core::cmp::PartialEq::ne") and len(t["args"]) == 2:
+            a, b_ = self.deref_val(f, env, t["args"][0]), self.deref_val(f, env, t["args"][1])
+            if a is not None and b_ is not None and a[0] == "e" and b_[0] == "e":
+                eq = a[1] == b_[1]
+                return ("b", int(eq if cn.endswith("::eq") else not eq))
+            return None
+        g = self.prog.fn_opt(norm_name(callee_name(t) or ""))
+        if g is None or g.crate != "kanata_keyberon" or self.depth >= 3:
+            return None
+        if "bool" != (g.local_ty(0) or ""):
+            return None
+        args = [self.deref_val(f, env, a) for a in t["args"]]
+        if any(a is None for a in args):
+            return None
+        self.depth += 1
+        try:
+            env0 = {i + 1: a for i, a in enumerate(args)}
+            outs = self.explore(g, 0, 0, env0, stop=lambda f_, b, si, s, env_: None, collect_ret=True)
+        finally:
+            self.depth -= 1
+        vals = {x for k, x in outs if k == "ret"}
+        if len(vals) == 1 and all(k == "ret" for k, _ in outs):
+            v = vals.pop()
+            return ("b", v) if v in (0, 1) else None
+        return None
+
+    def explore(self, f, entry, first_stmt, env0, stop, collect_ret=False, limit=600, watch=None):
+        """paths from (entry, first_stmt). `stop(f, block, stmt index, stmt, env)` may return an outcome kind for an
+        assignment (the path ends there). Outcomes: (kind, value of the watched local / returned value)."""
+        out, seen = set(), set()
+        st = [(entry, frozenset(env0.items()), True)]
         while st and limit > 0:
             limit -= 1
-            b, fenv = st.pop()
-            if (b, fenv) in seen:
+            b, fenv, first = st.pop()
+            if (b, fenv, first) in seen:
                 continue
-            seen.add((b, fenv))
+            seen.add((b, fenv, first))
             env = dict(fenv)
             done = None
             for si_, s in enumerate(f.stmts(b)):
-                if b == entry and si_ < first_stmt and fenv == st0:
+                if first and si_ < first_stmt:
                     continue
                 if s["k"] != "assign":
                     continue
-                p, rv = s["p"], s["rv"]
-                if proj(p):
-                    continue
-                l = p["l"]
-                if l == self.idx:
-                    src = rv.get("a") if rv["k"] == "use" else None
-                    # current_index = current_end_index (possibly through a temporary)
-                    isend = False
-                    if src is not None and is_place(src) and not proj(src):
-                        if src["l"] == self.end:
-                            isend = True
-                        else:
-                            d = f.single_def(src["l"])
-                            isend = bool(d and d[2] == "assign" and d[3]["k"] == "use" and is_place(d[3]["a"]) and not proj(d[3]["a"]) and d[3]["a"]["l"] == self.end)
-                    done = "skip" if isend else "next"
+                k = stop(f, b, si_, s, env)
+                if k is not None:
+                    done = k
                     break
-                for k in [k for k in env if k == l or (isinstance(k, tuple) and k[0] == l)]:
-                    del env[k]
-                if rv["k"] == "use":
-                    x = self.val(env, rv["a"])
-                    if x is not None:
-                        env[l] = x
-                elif rv["k"] == "un" and rv.get("op") == "Not":
-                    x = self.val(env, rv["a"])
-                    if x is not None and x[0] == "b":
-                        env[l] = ("b", 1 - x[1])
-                elif rv["k"] == "agg" and rv.get("tup"):
-                    for i, o in enumerate(rv["ops"]):
-                        x = self.val(env, o)
-                        if x is not None:
-                            env[(l, i)] = x
-                elif rv["k"] == "discr":
-                    x = self.val(env, rv["p"])
-                    if x is not None and x[0] == "e":
-                        env[l] = ("d", self.discr[x[1]])
+                self.assign(f, env, s)
+            w = (env.get(watch, (None, None))[1]) if watch is not None else None
             if done is not None:
-                out.add((done, env.get(self.ret, (None, None))[1]))
+                out.add((done, w))
                 continue
             t = f.term(b)
             succs = [s_ for s_ in f.succs(b) if not f.is_cleanup(s_)]
             if t["k"] == "call":
                 d = t["dest"]
+                x = self.call(f, env, t)
                 if not proj(d):
                     for k in [k for k in env if k == d["l"] or (isinstance(k, tuple) and k[0] == d["l"])]:
                         del env[k]
-                    cn = callee_written(t) or ""
-                    if cn in ("core::cmp::PartialEq::eq", "core::cmp::PartialEq::ne") and len(t["args"]) == 2:
-                        a, b_ = self.deref_val(env, t["args"][0]), self.deref_val(env, t["args"][1])
-                        if a is not None and b_ is not None and a[0] == "e" and b_[0] == "e":
-                            eq = a[1] == b_[1]
-                            env[d["l"]] = ("b", int(eq if cn.endswith("::eq") else not eq))
-                    elif cn.split("::")[-1] not in ("eq", "ne"):
-                        # any other call ends the site: the evaluator went on to something else
-                        if f.term(b).get("ln") and False:
-                            pass
-                if (callee_written(t) or "").split("::")[-1] not in ("eq", "ne"):
-                    out.add(("next", env.get(self.ret, (None, None))[1]))
+                    if x is not None:
+                        env[d["l"]] = x
+                if x is None:
+                    out.add(("next", w))          # an opaque call: the evaluator went on to something else
                     continue
-            if t["k"] == "switch":
-                x = self.val(env, t["d"])
+            elif t["k"] == "switch":
+                x = self.val(f, env, t["d"])
                 if x is not None and x[0] in ("b", "d"):
                     tgt = None
                     for val_, tb in t["ts"]:
                         if val_ == x[1]:
                             tgt = tb
                     succs = [tgt if tgt is not None else t["o"]]
-            elif t["k"] == "return" or not succs:
-                out.add(("next", env.get(self.ret, (None, None))[1]))
+            elif t["k"] == "return":
+                if collect_ret:
+                    r = env.get(0)
+                    out.add(("ret", r[1] if r is not None and r[0] == "b" else None))
+                else:
+                    out.add(("next", w))
+                continue
+            if not succs:
+                out.add(("next", w))
                 continue
             fe = frozenset(env.items())
             for s_ in succs:
-                st.append((s_, fe))
+                st.append((s_, fe, False))
         if limit <= 0:
             out.add(("limit", None))
         return out
+
+
+def _is_end_copy(f, rv, end):
+    src = rv.get("a") if rv["k"] == "use" else None
+    if src is None or not is_place(src) or proj(src):
+        return False
+    if src["l"] == end:
+        return True
+    d = f.single_def(src["l"])
+    return bool(d and d[2] == "assign" and d[3]["k"] == "use" and is_place(d[3]["a"]) and not proj(d[3]["a"]) and d[3]["a"]["l"] == end)
 
 
 def run(prog):
@@ -185,84 +234,137 @@ def run(prog):
         res.viol("anchor/locals", f.loc, "evaluate_boolean: locals %s not all found (%s)" % (need, sorted(byname)[:12]))
         return res
     ret, op, idx, end = (byname[n] for n in need)
-    site = Site(prog, f, (ret, op, idx, end))
-    # a site = a `matches!((ret, current_op), ..)`: the block that builds the tuple; its entry is that block or, when the
-    # `current_op == Not` negation comes first (dominates it and nothing else of interest lies between), the block of that test
-    tuples = []
+    ab = Abs(prog)
+
+    # ---- sites: the statements `current_index = current_end_index`
+    skips = []
     for b in sorted(f.reachable()):
-        for s in f.stmts(b):
-            if s["k"] == "assign" and s["rv"]["k"] == "agg" and s["rv"].get("tup") and len(s["rv"]["ops"]) == 2:
-                srcs = []
-                for o in s["rv"]["ops"]:
-                    if is_place(o) and not proj(o):
-                        d = f.single_def(o["l"])
-                        if d and d[2] == "assign" and d[3]["k"] == "use" and is_place(d[3]["a"]) and not proj(d[3]["a"]):
-                            srcs.append(d[3]["a"]["l"])
-                if srcs == [ret, op]:
-                    first = min(i for i, s2 in enumerate(f.stmts(b)) if s2["k"] == "assign" and not proj(s2["p"])
-                                and s2["p"]["l"] in [o["l"] for o in s["rv"]["ops"]])
-                    tuples.append((b, first))
-    if len(tuples) != 2:
-        res.viol("anchor/sites", f.loc, "expected two `matches!((ret, current_op), ..)` tests in evaluate_boolean, found %d" % len(tuples))
+        for si, s in enumerate(f.stmts(b)):
+            if s["k"] == "assign" and not proj(s["p"]) and s["p"]["l"] == idx and _is_end_copy(f, s["rv"], end):
+                skips.append((b, si))
+    if len(skips) != 2:
+        res.inst("sites", where=f.loc, ok=False)
+        res.viol("anchor/sites", f.loc, "expected two statements `current_index = current_end_index` in evaluate_boolean, found %d" % len(skips))
         return res
-    entries, firsts = [], []
-    for tb, first in tuples:
-        entry = tb
-        # walk back over straight-line predecessors / the diamond of `if current_op == Not { ret = !ret }`
-        cur = tb
-        for _ in range(6):
-            ps = [p for p in f.preds(cur) if not f.is_cleanup(p)]
-            if len(ps) == 2 and all(len(f.succs(p)) == 1 for p in ps):
-                heads = set()
-                for p in ps:
-                    heads |= set(f.preds(p))
-                if len(heads) == 1:
-                    h = heads.pop()
-                    hp = f.preds(h)
-                    if f.term(h)["k"] == "switch" and len(hp) == 1 and f.term(hp[0])["k"] == "call" and \
-                            (callee_written(f.term(hp[0])) or "").endswith("PartialEq::eq"):
-                        entry, first = hp[0], 0
+
+    def opaque_def(b, si_to=None):
+        """index of the last statement ('T' for the terminator) of block b that gives ret / current_op an opaque value"""
+        last = None
+        for si, s in enumerate(f.stmts(b)):
+            if si_to is not None and si >= si_to:
                 break
-            if len(ps) != 1:
+            if s["k"] == "assign" and not proj(s["p"]) and s["p"]["l"] in (ret, op):
+                rv = s["rv"]
+                ok = (rv["k"] == "un" and rv.get("op") == "Not") or (rv["k"] == "use" and is_const(rv["a"])) or \
+                     (rv["k"] == "agg" and rv.get("adt") == OP)
+                if rv["k"] == "use" and is_place(rv["a"]) and not proj(rv["a"]):
+                    d = f.single_def(rv["a"]["l"])
+                    if d and d[2] == "assign" and d[3]["k"] == "un":
+                        ok = True          # ret = move tmp, tmp = !ret
+                if not ok:
+                    last = si
+        t = f.term(b)
+        if si_to is None and t["k"] == "call" and not proj(t["dest"]) and t["dest"]["l"] in (ret, op):
+            last = "T"
+        return last
+
+    reach_to = {}
+
+    def can_reach(x, target):
+        if target not in reach_to:
+            # backward reachability
+            seen, st = set(), [target]
+            while st:
+                y = st.pop()
+                if y in seen:
+                    continue
+                seen.add(y)
+                st.extend(f.preds(y))
+            reach_to[target] = seen
+        return x in reach_to[target]
+    entries = []
+    for (sb, ssi) in skips:
+        o = opaque_def(sb, ssi)
+        if o is not None:
+            entries.append((sb, o + 1))
+            continue
+        entry, cur = (sb, 0), sb
+        for _ in range(80):
+            cands = [p for p in f.reachable() if p != cur and f.dominates(p, cur) and all(f.dominates(q, p) or not f.dominates(q, cur) or q == p
+                                                                                               for q in f.reachable() if q != cur and f.dominates(q, cur))]
+            # immediate dominator = the dominator of cur that every other dominator of cur dominates
+            idom = None
+            ds = [p for p in f.reachable() if p != cur and f.dominates(p, cur)]
+            for p in ds:
+                if all(f.dominates(q, p) for q in ds):
+                    idom = p
+            if idom is None:
                 break
-            cur = ps[0]
+            # blocks on a path idom -> skip that does not come back through idom (one iteration of the evaluator loop)
+            back, stb = set(), [sb]
+            while stb:
+                y = stb.pop()
+                if y in back or y == idom:
+                    continue
+                back.add(y)
+                stb.extend(f.preds(y))
+            between = (f.reach_from(idom, avoid=[sb]) & back) - {idom, sb}
+            if any(opaque_def(x) is not None for x in between):
+                break
+            o = opaque_def(idom)
+            if o == "T":
+                break
+            if o is not None:
+                entry = (idom, o + 1)
+                break
+            entry, cur = (idom, 0), idom
         entries.append(entry)
-        firsts.append(first)
-    names = ["after-nested-group" if f.line_of(e) < f.line_of(entries[1 - i]) else "after-leaf" for i, e in enumerate(entries)]
+    order = sorted(range(2), key=lambda i: f.line_of(skips[i][0], skips[i][1]))
+    names = {order[0]: "after-nested-group", order[1]: "after-leaf"}
     variants = list(prog.enum_variants(OP).values())
+
+    def stop_at(skip):
+        def stop(f_, b, si, s, env):
+            if f_ is f and not proj(s["p"]) and s["p"]["l"] == idx:
+                return "skip" if (b, si) == skip else "next"
+            return None
+        return stop
     table = {}
-    for e, nm, fs in zip(entries, names, firsts):
+    for i in range(2):
+        (eb, esi) = entries[i]
         for v in variants:
             for r in (1, 0):
-                outs = site.run(e, v, r, first_stmt=fs)
+                outs = ab.explore(f, eb, esi, {ret: ("b", r), op: ("e", v)}, stop_at(skips[i]), watch=ret)
                 kinds = {k for k, _ in outs}
                 forced = kinds == {"skip"}
                 vals = sorted({x for k, x in outs if k == "skip" and x is not None})
-                table[(nm, v, r)] = (forced, vals if forced else None, sorted(outs, key=str))
+                table[(i, v, r)] = (forced, vals if forced else None, sorted(outs, key=str))
+    res.notes.append("site entries: %s" % {names[i]: "bb%d:%d (line %s)" % (entries[i][0], entries[i][1], f.line_of(entries[i][0])) for i in range(2)})
     for v in variants:
         for r in (1, 0):
-            a = table[(names[0], v, r)]
-            b = table[(names[1], v, r)]
-            ok = a[0] == b[0] and a[1] == b[1] and ("limit", None) not in a[2] and ("limit", None) not in b[2]
+            a, b = table[(order[0], v, r)], table[(order[1], v, r)]
+            na, nb = names[order[0]], names[order[1]]
+            lim = ("limit", None) in a[2] or ("limit", None) in b[2]
+            ok = a[0] == b[0] and a[1] == b[1] and not lim
             key = "%s/%s" % (v, "true" if r else "false")
-            res.inst(key, where=f.loc, **{names[0].replace("-", "_"): "skip, group=%s" % a[1] if a[0] else "not forced",
-                                          names[1].replace("-", "_"): "skip, group=%s" % b[1] if b[0] else "not forced"}, ok=ok)
+            res.inst(key, where=f.loc, after_nested_group="skip, group=%s" % a[1] if a[0] else "not forced",
+                     after_leaf="skip, group=%s" % b[1] if b[0] else "not forced", ok=ok)
             res.oblige(ok)
-            # the meaning of or / and / not fixes the table itself, not only the agreement
             want = {("Or", 1): (True, [1]), ("And", 0): (True, [0]), ("Not", 1): (True, [0])}.get((v, r), (False, None))
-            for nm_, got, e_ in ((names[0], a, entries[0]), (names[1], b, entries[1])):
+            for nm_, got, sk in ((na, a, skips[order[0]]), (nb, b, skips[order[1]])):
                 okt = (got[0], got[1]) == want
                 res.oblige(okt)
                 if not okt and ok:
-                    res.viol(key + "/table/" + nm_, "%s:%s" % (f.file, f.line_of(e_)),
+                    res.viol(key + "/table/" + nm_, "%s:%s" % (f.file, f.line_of(sk[0], sk[1])),
                              "operator `%s`, operand value %s: the short-circuit test %s gives %s; the meaning of the operator requires %s"
                              % (v, bool(r), nm_, ("skip with group value %s" % got[1]) if got[0] else "no forced skip",
                                 ("skip with group value %s" % want[1]) if want[0] else "no forced skip (later operands still count)"))
             if not ok:
-                res.viol(key, "%s:%s" % (f.file, f.line_of(entries[0])),
-                         "operator `%s`, operand value %s: the short-circuit test %s (line %s) gives %s but the test %s (line %s) gives %s. "
-                         "Both must skip the rest of the group in the same cases (or+true, and+false, not+true) with the same group value: "
-                         "as it is, a nested list inside `%s` is treated differently from a plain key in the same position"
-                         % (v, bool(r), names[0], f.line_of(entries[0]), ("skip with group value %s" % a[1]) if a[0] else "no forced skip",
-                            names[1], f.line_of(entries[1]), ("skip with group value %s" % b[1]) if b[0] else "no forced skip", v.lower()))
+                sa, sb_ = skips[order[0]], skips[order[1]]
+                res.viol(key, "%s:%s" % (f.file, f.line_of(sa[0], sa[1])),
+                         "operator `%s`, operand value %s: the short-circuit test %s (skip at line %s) gives %s but the test %s (skip at line %s) "
+                         "gives %s. Both must skip the rest of the group in the same cases (or+true, and+false, not+true) with the same group "
+                         "value: as it is, a nested list inside `%s` is treated differently from a plain key in the same position"
+                         % (v, bool(r), na, f.line_of(sa[0], sa[1]), ("skip with group value %s" % a[1]) if a[0] else "no forced skip",
+                            nb, f.line_of(sb_[0], sb_[1]), ("skip with group value %s" % b[1]) if b[0] else "no forced skip", v.lower()))
     return res
